@@ -186,6 +186,20 @@ def check_case(case, ctx):
         except Exception as e:  # noqa: BLE001
             ctx.violation("derive.session", f"[{variant}] {type(e).__name__}: {e}", case)
             return
+        if "rsa_private_key" in kw and case["seed"] % 4 == 1:
+            # the same decoder is then shown an undecryptable metadata blob several times: refused every time
+            bad = bytes([blob[0] ^ 0x55]) + blob[1:-1] + bytes([blob[-1] ^ 1])
+            breq = dec.transform_get.transform(c2.C2Data(metadata=bad), c2.HttpRequest(method=dec.get_verb, uri=dec.get_uris[0], params={}, headers={}, body=b""))
+            for attempt in range(3):
+                try:
+                    out = list(dec.iter_recover_http(breq))
+                except ValueError:
+                    continue
+                except Exception as e:  # noqa: BLE001
+                    ctx.violation("negative.blob", f"[{variant}] undecryptable check-in, sighting #{attempt + 1}: {type(e).__name__}: {e}", case)
+                    return
+                ctx.violation("negative.blob", f"[{variant}] undecryptable check-in accepted at sighting #{attempt + 1} (yielded {len(out)} packets, no error)", case)
+                return
         got = (dec.beacon_keys.aes_key, dec.beacon_keys.hmac_key)
         if len(pk) != 1 or (pk[0] is not None and bytes(pk[0].aes_rand) != fields["aes_rand"]) or got != (d[:16], d[16:]):
             ctx.violation("derive.session", f"[{variant}] after the check-in the decoder's session keys are {core.short(got)}; SHA-256 halves of the metadata's random bytes are {core.short((d[:16], d[16:]))}", case)
@@ -265,7 +279,7 @@ def run_shard(shard, ctx):
             k = key(kname)
             kb = k.size_in_bytes()
             what = rng.choice(["random", "otherkey", "wronglen", "zeros", "ones", "empty-pt", "short-pt", "wrong-magic",
-                               "magic-short", "size-too-big"])
+                               "magic-short", "size-too-big", "valid-wrong-length"])
             f = gen_fields(rng)
             info = rng.randbytes(rng.randrange(0, 20))
             if what == "random":
@@ -277,6 +291,11 @@ def run_shard(shard, ctx):
                     continue
             elif what == "wronglen":
                 blob = rng.randbytes(rng.choice([0, 1, 16, kb - 1, kb + 1, 2 * kb]))
+            elif what == "valid-wrong-length":
+                # a genuine ciphertext that is not exactly as long as the modulus: zero bytes in front of it, or its own leading
+                # zero byte dropped - the blob in the cookie is the modulus-sized string, anything else is not a metadata blob
+                blob = R.rsa_encrypt_pkcs1(rng, k.n, k.e, R.meta_pack(f, info))
+                blob = blob[1:] if blob[0] == 0 else bytes(rng.choice([1, 2, 16, kb])) + blob
             elif what == "zeros":
                 blob = bytes(kb)
             elif what == "ones":
